@@ -1305,6 +1305,8 @@ class File(Value):
 
     def touch(self, time: tuple[int, int] | tuple[float, float] | None = None) -> None:
         self.filesystem.touch(self.path, time)
+        # Touching creates the file or changes its timestamp, so the hash needs a refresh.
+        self.update_hash()
 
     def read(self, mode: str = "r", encoding: Optional[str] = None) -> str | bytes:
         with self.open(mode=mode, encoding=encoding) as infile:
